@@ -1,0 +1,46 @@
+//go:build verif
+
+// Contracts checked by /verif/gvc (contract-based deductive verification).
+// This file contains comments only; it is compiled only under the "verif" build tag.
+
+package server
+
+// ---------------------------------------------------------------------------
+// C18 — WebSocket transport: wsConn.Read / Write
+//
+// pending(ws) = ws.buf[ws.r:] ++ (payloads of the binary messages still to come).
+// With B the buffer Read works on (the old one, or the message it has just read) and R the
+// position in it, "no byte lost, none invented, none reordered" is:
+//   p[0:n] == B[R:R+n], n == min(len(p), len(B)-R),
+//   and afterwards either (buf == B, r == R+n, r < len(B)) or (buf == nil, r == 0, R+n == len(B)).
+
+//@ func (*wsConn).Read
+//@ props C18
+//@ let B = ws.buf != nil ? ws.buf : ws.c.$lastMsg
+//@ requires [C18] ws != nil && ws.c != nil
+//@ requires [C18] ws.buf != nil ==> 0 <= ws.r && ws.r < len(ws.buf)
+//@ requires [C18] ws.buf == nil ==> ws.r == 0
+//@ requires [C18] ref(p) != ref(ws.buf) || ws.buf == nil
+//@ witness bufnil = ws.buf == nil
+//@ witness buflen = len(ws.buf)
+//@ witness r = ws.r
+//@ witness plen = len(p)
+//@ modifies ws.buf, ws.r, elems(p), ghost(ws.c.$reads), ghost(ws.c.$lastType), ghost(ws.c.$lastMsg), ghost(ws.c.$lastErr)
+//@ ensures [C18] old(ws.buf) != nil ==> ws.c.$reads == old(ws.c.$reads)
+//@ ensures [C18] old(ws.buf) == nil ==> ws.c.$reads == old(ws.c.$reads) + 1
+//@ ensures [C18] old(ws.buf) == nil && ws.c.$lastErr != nil ==> err == ws.c.$lastErr && n == 0 && ws.buf == nil && ws.r == 0
+//@ ensures [C18] old(ws.buf) == nil && ws.c.$lastErr == nil && ws.c.$lastType != 2 ==> err == ErrInvalWsMsgType && n == 0 && ws.buf == nil && ws.r == 0
+//@ ensures [C18] err == nil ==> 0 <= n && n <= len(p)
+//@ ensures [C18] err == nil ==> n == min(len(p), len(cur(ws, old(ws.buf))) - old(ws.r))
+//@ ensures [C18] err == nil ==> forall i int :: 0 <= i && i < n ==> p[i] == cur(ws, old(ws.buf))[old(ws.r) + i]
+//@ ensures [C18] err == nil && ws.buf != nil ==> ws.buf == cur(ws, old(ws.buf)) && ws.r == old(ws.r) + n && ws.r < len(ws.buf)
+//@ ensures [C18] err == nil && ws.buf == nil ==> old(ws.r) + n == len(cur(ws, old(ws.buf))) && ws.r == 0
+//@ ensures [C18] old(ws.buf) != nil ==> err == nil
+//@ spec func cur(ws *wsConn, ob []byte) []byte = ob != nil ? ob : ws.c.$lastMsg
+
+//@ func (*wsConn).Write
+//@ props C18
+//@ requires [C18] ws != nil && ws.c != nil
+//@ modifies ghost(ws.c.$writes), ghost(ws.c.$wType), ghost(ws.c.$wMsg)
+//@ ensures [C18] err == nil ==> n == len(p) && ws.c.$writes == old(ws.c.$writes) + 1 && ws.c.$wType == 2 && ws.c.$wMsg == p
+//@ ensures [C18] err != nil ==> n == 0 && ws.c.$writes == old(ws.c.$writes)
